@@ -1,5 +1,6 @@
 import TaurexModel.Proto
 import TaurexModel.Transmission
+import TaurexModel.Geometry
 
 namespace Taurex.Ops.C01
 open Taurex.Proto Taurex.Transmission
@@ -43,6 +44,19 @@ def pathsOp (args : List String) : Option String :=
       (List.range (n - l)).map fun k => chord (m != 0) rp (fn1 zb) (fn1 z) (fn1 dz) l k
     pure (fList (fList fF) rows)) args
 
+/-- `c01.paths3d rp z dz zb` → rows `l = 0..n-1` of the 3-D geometric model (`Geometry.pathRow3d`): one entry per
+    boundary sphere the line of sight of layer `l` hits -/
+def paths3dOp (args : List String) : Option String :=
+  run (do
+    let rp ← flt
+    let z ← listOf flt
+    let dz ← listOf flt
+    let zb ← listOf flt
+    let n := z.length
+    if dz.length ≠ n ∨ zb.length ≠ n + 1 then failure
+    let rows := (List.range n).map fun l => Taurex.Geometry.pathRow3d rp n (fn1 zb) (fn1 z) (fn1 dz) l
+    pure (fList (fList fF) rows)) args
+
 /-- `c01.spectrum method rp rs z dz zb dens nwn contribs`
     → transCut[n][nwn] transFull[n][nwn] depthCut[nwn] depthFull[nwn] bare opaque -/
 def spectrumOp (args : List String) : Option String :=
@@ -71,6 +85,6 @@ def spectrumOp (args : List String) : Option String :=
     pure (fList (fList fF) tc ++ " " ++ fList (fList fF) tf ++ " " ++ fList fF dc ++ " " ++ fList fF df
           ++ " " ++ fF bare ++ " " ++ fF opq)) args
 
-def ops : List Op := [("c01.paths", pathsOp), ("c01.spectrum", spectrumOp)]
+def ops : List Op := [("c01.paths", pathsOp), ("c01.paths3d", paths3dOp), ("c01.spectrum", spectrumOp)]
 
 end Taurex.Ops.C01
